@@ -8,6 +8,8 @@
 -/
 import Coraza.Proofs.Tf
 import Coraza.Model.TfChain
+import Coraza.Model.UrlDecodeUni
+import Coraza.Base.Lit
 open Coraza Coraza.Tf
 
 /-! ## 1. change reports are sound: never "unchanged" when the output differs -/
@@ -185,3 +187,63 @@ example : ∀ t ∈ [urlDecode, trim, removeNulls, hexEncode], FlagSound t := by
   · exact C14_flag_sound_trim
   · exact C14_flag_sound_removeNulls
   · exact C14_flag_sound_hexEncode
+
+/-! ## urlDecodeUni (url_decode_uni.go; the best-fit table is regenerated from the Go source on every run) -/
+
+
+theorem uniDecodeF_flag (f : Nat) (x : Bytes) (hl : x.length < f) (h : (uniDecodeF f x).2 = false) :
+    (uniDecodeF f x).1 = x := by
+  induction f generalizing x with
+  | zero => omega
+  | succ f ih =>
+    cases x with
+    | nil => simp [uniDecodeF]
+    | cons b tl =>
+      have hl' : tl.length < f := by simp at hl; omega
+      unfold uniDecodeF at h ⊢
+      split at h
+      · simp at h
+      · split at h
+        · have := ih tl hl' (by simpa using h)
+          simp_all
+        · rename_i hb1 hb2
+          have hb : b = 0x25 := by simpa using hb2
+          split at h
+          · rename_i u rest
+            have hr : rest.length < f := by simp at hl'; omega
+            split at h
+            · split at h
+              · rename_i a b2 c2 d rest4
+                split at h
+                · simp at h
+                · have := ih _ hr (by simpa using h)
+                  simp_all
+              · have := ih _ hr (by simpa using h)
+                simp_all
+            · split at h
+              · split at h
+                · simp at h
+                · have := ih _ hl' (by simpa using h)
+                  simp_all
+              · have := ih _ hl' (by simpa using h)
+                simp_all
+          · simp_all
+
+/-- **C14_flag_sound_urlDecodeUni**: urlDecodeUni never reports "unchanged" with a different output:
+    skipped (invalid or truncated) escapes are copied verbatim, and only a decoded escape or a `+`
+    raises the flag — for every byte string. -/
+theorem C14_flag_sound_urlDecodeUni (x : Bytes) (h : (urlDecodeUni x).changed = false) : (urlDecodeUni x).out = x := by
+  unfold urlDecodeUni at h ⊢
+  split
+  · rename_i hany
+    simp only [hany, if_true] at h
+    have := uniDecodeF_flag (x.length + 1) x (by omega) (by simpa [uniDecode] using h)
+    simpa [uniDecode] using this
+  · rfl
+
+/-- scanning goes on after a truncated `%u`: the escape or `+` that follows is still decoded
+    (the behaviour seed C14-3 breaks), and best-fit / full-width folding -/
+example : urlDecodeUni (b!"%u%41") = ⟨b!"%uA", true, false⟩ := by decide +kernel
+example : urlDecodeUni (b!"id=1%u+or") = ⟨b!"id=1%u or", true, false⟩ := by decide +kernel
+example : urlDecodeUni (b!"%uff1cscript%u2019") = ⟨b!"<script'", true, false⟩ := by decide +kernel
+example : urlDecodeUni (b!"%u00") = ⟨b!"%u00", false, false⟩ := by decide +kernel
